@@ -17,9 +17,9 @@ impl SeqAtomicUsize {
     #[verifier::external_body]
     pub fn new(v: usize) -> (r: SeqAtomicUsize) ensures r.val == v { SeqAtomicUsize { val: v } }
     #[verifier::external_body]
-    pub fn load(&self, o: Ordering) -> (r: usize) ensures r == self.val { self.val }
+    pub fn load(&self, o: std::sync::atomic::Ordering) -> (r: usize) ensures r == self.val { self.val }
     #[verifier::external_body]
-    pub fn fetch_add(&mut self, n: usize, o: Ordering) -> (r: usize)
+    pub fn fetch_add(&mut self, n: usize, o: std::sync::atomic::Ordering) -> (r: usize)
         ensures r == old(self).val,
             final(self).val as int == (if old(self).val + n > usize::MAX { old(self).val + n - usize::MAX - 1 } else { old(self).val + n })
     { let r = self.val; self.val = self.val.wrapping_add(n); r }
